@@ -63,6 +63,35 @@ loop(F_RAFT, "RaftNode._send_append_entries", 1, modifies=SENT_LOG, inv=[
     ("one-append-entries-per-visited-peer", lambda L: _sent_grows_by(L, L.i)),
     ("each-carries-the-log-suffix-after-the-followers-next-index", lambda L: _each_sent(L, append_ok))])
 
+APPLY_WRITES = [("RaftNode", "_last_applied"), ("RaftNode", "_commands_committed"), ("RaftNode", "_pending_futures"),
+                ("RaftNode", "g_applied"), ("KVStateMachine", "_data"), ("SimFuture", "_resolved"), ("SimFuture", "_value"),
+                ("SimFuture", "g_at_term"), ("SimFuture", "g_at_cmd")]
+
+
+def _apply_progress(L):
+    """after i iterations exactly entries[0..i) have been applied, in order, right after the old prefix"""
+    o, old = L.self, L.old(L.self)
+    ga = seq_term(o.g_applied)
+    note(L.i)
+    note(old._last_applied + L.i)
+    return ((o._last_applied == old._last_applied + L.i) & (slen(o.g_applied) == o._last_applied)
+            & forall(Int, lambda p: implies((0 <= p) & (p < o._last_applied), mk_bool(
+                elem_eq(nth(ga, p.t), nth(seq_term(log_entries(o)), p.t)))), "p"))
+
+
+APPLY_LOOP = loop(F_RAFT, "RaftNode._apply_committed", 1, modifies=APPLY_WRITES, inv=[
+    ("applied-so-far-is-the-log-prefix-in-order", _apply_progress),
+    ("pending-futures-stand-for-their-log-entries", lambda L: _futures_match_log(L.self)),
+    ("applied-counter", lambda L: L.self._commands_committed == L.old(L.self)._commands_committed + L.i)])
+
+loop(F_RAFT, "RaftNode._handle_append_entries", 1,
+     modifies=[("Log", "_entries"), ("Log", "commit_index"), ("RaftNode", "_pending_futures")], inv=[
+    ("covered-range-carries-the-leaders-terms", lambda L: ae_covered(L.self, L.old(L.self), L.prev_log_index, L.seq, L.i)),
+    ("entries-below-prev-untouched", lambda L: ae_prefix_kept(L.self, L.old(L.self), L.prev_log_index)),
+    ("nothing-beyond-a-conflict-is-kept", lambda L: ae_tail(L.self, L.old(L.self), L.prev_log_index, L.i)),
+    ("log-well-formed-and-committed-prefix-kept", lambda L: ae_log_ok(L.self, L.old(L.self))),
+    ("pending-futures-stand-for-their-log-entries", lambda L: _futures_match_log(L.self))])
+
 from specs.common import *  # noqa: E402,F401
 
 from happysimulator.components.consensus.log import Log, LogEntry  # noqa: E402
@@ -84,6 +113,7 @@ PROPERTY = {
 LOGENTRY = valueclass("LogEntry", [LogEntry], [("index", Int), ("term", Int), ("command", Any)])
 LE = LOGENTRY.dt
 ENTRIES = Seq(LOGENTRY)
+APPLY_LOOP.elem = LOGENTRY      # `_apply_committed([])`: the empty list advance_commit returns when nothing is new
 
 
 def zi(x):
@@ -106,7 +136,15 @@ def nth(t, i):
         return z3.If(i < n0, nth(head, i), nth(rest, i - n0))
     if k == z3.Z3_OP_SEQ_EXTRACT:
         return nth(t.arg(0), t.arg(1) + i)
+    if k == z3.Z3_OP_ITE:
+        return z3.If(t.arg(0), nth(t.arg(1), i), nth(t.arg(2), i))
     return t[i]
+
+
+def note(x):
+    """register the (loop counter / position) term x as an instantiation point of the quantified assumptions"""
+    if not isinstance(x, int):
+        _ctx.cur().note_term(z3.simplify(zi(x)))
 
 
 def hint(q, term):
@@ -129,9 +167,17 @@ def contiguous(entries, base=0):
                                          mk_bool(LE.index(nth(seq_term(entries), p.t)) == zi(base) + p.t + 1)), "p")
 
 
+def elem_eq(a, b):
+    """equality of sequence elements; log entries are compared by their data fields (index, term, command):
+    the variant tag of the value-class encoding is not data"""
+    if a.sort() == LE:
+        return z3.And(LE.index(a) == LE.index(b), LE.term(a) == LE.term(b), LE.command(a) == LE.command(b))
+    return a == b
+
+
 def same_upto(a, b, n):
     """pointwise: the raw sequences a and b have the same first n elements (n <= both lengths)"""
-    return forall(Int, lambda p: implies((0 <= p) & (p < n), mk_bool(nth(a, p.t) == nth(b, p.t))), "p")
+    return forall(Int, lambda p: implies((0 <= p) & (p < n), mk_bool(elem_eq(nth(a, p.t), nth(b, p.t)))), "p")
 
 
 def extends_by(new, old, n):
@@ -652,11 +698,16 @@ def _same_vote(old, new):
                    mk_bool(voted(new) == voted(old)))
 
 
+def quorum_of(o):
+    """strict majority of the cluster (the peers and the node itself): n // 2 + 1"""
+    return (slen(o._peers) + 1) // 2 + 1
+
+
 def _leader_only_by_quorum(old, new):
     """L3: a node becomes leader only as a candidate of the same term holding a quorum of votes"""
     return implies((state_of(new) == LEADER) & (state_of(old) != LEADER),
                    (state_of(old) == CANDIDATE) & (new._current_term == old._current_term)
-                   & (slen(new._votes_received_set) >= slen(new._peers) // 2 + 1))
+                   & (slen(new._votes_received_set) >= quorum_of(new)))
 
 
 def _votes_only_this_term(old, new):
@@ -893,7 +944,7 @@ def _vr_newer_term(s):
 
 def _vr_leader_iff_quorum(s):
     m, old = md(s.old(s.event)), s.old(s.self)
-    q = slen(s.self._peers) // 2 + 1
+    q = quorum_of(s.self)
     return implies((mget(m, "term") == old._current_term) & (state_of(old) == CANDIDATE),
                    iff(state_of(s.self) == LEADER, slen(s.self._votes_received_set) >= q)
                    & (s.self._current_term == old._current_term) & mk_bool(voted(s.self) == voted(old)))
@@ -918,7 +969,7 @@ def _leader_announces(s):
                                                    & append_ok(s.self, new.at(old.n + j.t), j)), "j"))
 
 
-fn(RaftNode, "_handle_vote_response", args={"event": Ref(Event)}, uses=[SEND, UNIFORM], focus=node_focus,
+fn(RaftNode, "_handle_vote_response", args={"event": Ref(Event)}, uses=[UNIFORM, (RaftNode, "_become_leader")], focus=node_focus,
    requires=[("well-formed-response", lambda s: mhas(md(s.event), "term", "vote_granted"))],
    ensures=[
     ("newer-term-makes-follower-without-vote", _vr_newer_term),
@@ -972,17 +1023,35 @@ def _appends_to_all_peers(s):
         Int, lambda j: implies((0 <= j) & (j < n), append_ok(s.self, new.at(old.n + j.t), j)), "j")
 
 
-fn(RaftNode, "_send_append_entries", uses=[SEND], focus=node_focus, ensures=[
+def _net(s):
+    return s.self._network
+
+
+def _old_or_dummy(field):
+    """frame entry for `<event field>.cancel()`: the event stored in `field`, if any"""
+    return lambda s: getattr(s.self, field) or new_object(Event)
+
+
+NET_GHOST = [(_net, "g_sent"), (_net, "g_nsent")]
+EVENTS = Seq(Ref(Event))
+
+fn(RaftNode, "_send_append_entries", uses=[SEND], focus=node_focus, returns=EVENTS, modifies=NET_GHOST, ensures=[
     ("one-append-entries-per-peer-carrying-term-prev-position-log-suffix-and-commit-index", _appends_to_all_peers),
     ("node-state-untouched", lambda s: unchanged(s, s.self) & unchanged(s, s.self._log))])
+SEND_APPEND = (RaftNode, "_send_append_entries")
 
-fn(RaftNode, "_become_leader", uses=[SEND, UNIFORM], focus=node_focus,
+fn(RaftNode, "_become_leader", uses=[SEND_APPEND, UNIFORM], focus=node_focus, returns=EVENTS,
+   modifies=["_state", "_leader", "_next_index", "_match_index", "_heartbeat_event"] + NET_GHOST + [
+       (_old_or_dummy("_election_timeout_event"), "_cancelled"), (_old_or_dummy("_heartbeat_event"), "_cancelled")],
+   # L3 at the call site: leadership is only ever claimed by a candidate holding a quorum of votes
    requires=[("only-a-candidate-with-quorum", lambda s: (state_of(s.self) == CANDIDATE)
-              & (slen(s.self._votes_received_set) >= slen(s.self._peers) // 2 + 1))],
+              & (slen(s.self._votes_received_set) >= quorum_of(s.self)))],
    ensures=[
     ("leader-of-the-same-term", lambda s: (state_of(s.self) == LEADER) & unchanged(s, s.self, "_current_term", "_voted_for")),
     ("resets-replication-state-and-announces-itself", _leader_announces),
+    ("next-index-stays-positive", lambda s: next_index_positive(s.self)),
     ("log-and-apply-state-untouched", _log_untouched)])
+BECOME_LEADER = (RaftNode, "_become_leader")
 
 
 def _hb_post(s):
@@ -992,6 +1061,189 @@ def _hb_post(s):
     return ite_b(state_of(old) == LEADER, _appends_to_all_peers(s), n_sent(s) == 0)
 
 
-fn(RaftNode, "_handle_heartbeat_tick", args={"event": Ref(Event)}, uses=[SEND, UNIFORM], focus=node_focus, ensures=[
+fn(RaftNode, "_handle_heartbeat_tick", args={"event": Ref(Event)}, uses=[SEND_APPEND, UNIFORM], focus=node_focus, ensures=[
     ("cancelled-ignored--leader-replicates-to-every-peer--others-send-nothing", _hb_post),
     ("no-election-or-log-effect", lambda s: unchanged(s, s.self, "_current_term", "_voted_for", "_state") & _log_untouched(s))])
+
+
+# ---- apply (L7, L8) --------------------------------------------------------------------------------
+def _applied_is_log_prefix(o):
+    return (slen(o.g_applied) == o._last_applied) & same_upto(seq_term(o.g_applied), seq_term(log_entries(o)), o._last_applied)
+
+
+def _entries_continue_applied_prefix(s):
+    """the argument is the log slice right after last_applied (what advance_commit returned)"""
+    o = s.self
+    lg, E = seq_term(log_entries(o)), seq_term(s.entries)
+    return (o._last_applied >= 0) & (o._last_applied + slen(s.entries) <= slen(log_entries(o))) & forall(
+        Int, lambda j: implies((0 <= j) & (j < slen(s.entries)), mk_bool(elem_eq(nth(E, j.t), nth(lg, zi(o._last_applied) + j.t)))), "j")
+
+
+fn(RaftNode, "_apply_committed", args={"entries": ENTRIES}, uses=[SM_APPLY, FUT_RESOLVE], inv=False,
+   requires=[("entries-are-the-log-slice-after-last-applied", _entries_continue_applied_prefix),
+             ("applied-so-far-is-the-log-prefix", lambda s: _applied_is_log_prefix(s.self)),
+             ("log-indices-contiguous", lambda s: contiguous(log_entries(s.self))),
+             ("pending-futures-stand-for-their-log-entries", lambda s: _futures_match_log(s.self))],
+   ensures=[
+    ("L7-each-entry-applied-once-in-index-order", lambda s: (s.self._last_applied == s.old(s.self)._last_applied + slen(s.entries))
+        & _applied_is_log_prefix(s.self) & extends(seq_term(s.self.g_applied), seq_term(s.old(s.self).g_applied))),
+    ("pending-futures-still-stand-for-their-log-entries", lambda s: _futures_match_log(s.self)),
+    ("counts-applied-commands", lambda s: s.self._commands_committed == s.old(s.self)._commands_committed + slen(s.entries)),
+    ("election-state-and-log-untouched", lambda s: unchanged(s, s.self, "_current_term", "_voted_for", "_state")
+        & unchanged(s, s.self._log))])
+
+
+# ---- follower: AppendEntries (L2, L4, L5, L7, L8) ----------------------------------------------------
+AE_KEYS = ("term", "leader_id", "prev_log_index", "prev_log_term", "entries", "leader_commit")
+
+
+def rec_at(E, k):
+    return nth(E if z3.is_expr(E) else seq_term(E), zi(k))
+
+
+def ae_covered(o, old, prev, E, i):
+    """L5: positions prev .. prev+i-1 of the log carry the terms of entries[0..i) (and their commands, unless
+    the entry already stored there had that index and term and was kept)"""
+    lg, olg = seq_term(log_entries(o)), seq_term(log_entries(old))
+
+    def body(j):
+        e, r = nth(lg, zi(prev) + j.t), rec_at(E, j)
+        kept = z3.And(zi(prev) + j.t < z3.Length(olg), elem_eq(e, nth(olg, zi(prev) + j.t)))
+        return implies((0 <= j) & (j < i), mk_bool(z3.And(LE.term(e) == ER.f_term(r), z3.Or(LE.command(e) == ER.f_command(r), kept))))
+    return (slen(log_entries(o)) >= prev + i) & forall(Int, body, "j")
+
+
+def ae_prefix_kept(o, old, prev):
+    return (slen(log_entries(o)) >= prev) & same_upto(seq_term(log_entries(o)), seq_term(log_entries(old)), prev)
+
+
+def ae_tail(o, old, prev, i):
+    """either nothing was removed (the old log is a prefix of the new one) or the log ends with the last entry written"""
+    return extends(seq_term(log_entries(o)), seq_term(log_entries(old))) | (slen(log_entries(o)) == prev + i)
+
+
+def ae_log_ok(o, old):
+    lg, olg = log_of(o), log_of(old)
+    return (contiguous(lg._entries) & (lg.commit_index == olg.commit_index) & (lg.commit_index <= slen(lg._entries))
+            & same_upto(seq_term(lg._entries), seq_term(olg._entries), olg.commit_index))
+
+
+def _ae_wellformed(s):
+    m = md(s.event)
+    E = MSG.acc("entries")(m)
+    prev = mget(m, "prev_log_index")
+
+    def body(k):
+        r = nth(E, k.t)
+        return implies((0 <= k) & mk_bool(k.t < z3.Length(E)), mk_bool(z3.And(
+            ENTRYREC.has(r, "index"), ENTRYREC.has(r, "term"), ENTRYREC.has(r, "command"), ER.f_index(r) == zi(prev) + 1 + k.t)))
+    return mhas(m, *AE_KEYS) & (prev >= 0) & forall(Int, body, "k")
+
+
+def _ae_no_conflict_with_committed(s):
+    """assumed (Leader Completeness + Log Matching, the cross-node theorem): a leader of a term >= mine never
+    disagrees with an entry I have committed"""
+    m, o = md(s.event), s.self
+    E = MSG.acc("entries")(m)
+    prev = mget(m, "prev_log_index")
+    lg = seq_term(log_entries(o))
+
+    def body(k):
+        return implies((0 <= k) & mk_bool(k.t < z3.Length(E)) & (prev + 1 + k <= commit_of(o)),
+                       mk_bool(LE.term(nth(lg, zi(prev) + k.t)) == ER.f_term(nth(E, k.t))))
+    return implies(mget(m, "term") >= o._current_term, forall(Int, body, "k"))
+
+
+def _ae_req(s):
+    return md(s.old(s.event))
+
+
+def _ae_reply(s):
+    return msg_of(first_sent(s))
+
+
+def _ae_stale(s):
+    return mget(_ae_req(s), "term") < s.old(s.self)._current_term
+
+
+def _ae_prev_ok(s):
+    """the consistency check of the request against the log at entry"""
+    m, ents = _ae_req(s), log_entries(s.old(s.self))
+    prev = mget(m, "prev_log_index")
+    return (prev == 0) | ((prev <= slen(ents)) & mk_bool(LE.term(ent_at(ents, prev)) == MSG.acc("prev_log_term")(m)))
+
+
+def _ae_shape(s):
+    r = first_sent(s)
+    m = msg_of(r)
+    return ((n_sent(s) == 0) & unchanged(s, s.self)) | ((n_sent(s) == 1) & (kind_of(r) == "RaftAppendEntriesResponse")
+            & mhas(m, "source", "destination", "term", "success", "from", "match_index")
+            & (mget(m, "term") == s.self._current_term) & (mget(m, "from") == s.self.name)
+            & (mget(m, "destination") == mget(_ae_req(s), "source")) & (mget(m, "match_index") >= 0))
+
+
+def _ae_success_iff(s):
+    return implies(n_sent(s) == 1, iff(mget(_ae_reply(s), "success"), Not(_ae_stale(s)) & _ae_prev_ok(s)))
+
+
+def _ae_stale_rejected(s):
+    return implies((n_sent(s) == 1) & _ae_stale(s), unchanged(s, s.self) & unchanged(s, s.self._log)
+                   & (mget(_ae_reply(s), "match_index") == 0))
+
+
+def _ae_leader_recognised(s):
+    m = _ae_req(s)
+    return implies((n_sent(s) == 1) & Not(_ae_stale(s)), (s.self._current_term == mget(m, "term")) & (state_of(s.self) == FOLLOWER)
+                   & mk_bool(field_term(s.self, "_leader") == OPTSTR.dt.some(MSG.acc("leader_id")(m))))
+
+
+def _ae_mismatch_keeps_log(s):
+    return implies((n_sent(s) == 1) & Not(mget(_ae_reply(s), "success")), _log_untouched(s))
+
+
+def _ae_ok(s):
+    return (n_sent(s) == 1) & mget(_ae_reply(s), "success")
+
+
+def _ae_E(s):
+    return MSG.acc("entries")(_ae_req(s))
+
+
+def _ae_prev(s):
+    return mget(_ae_req(s), "prev_log_index")
+
+
+def _ae_match_index_not_above(s):
+    return implies(_ae_ok(s), mk_bool(zi(mget(_ae_reply(s), "match_index")) <= zi(_ae_prev(s)) + z3.Length(_ae_E(s))))
+
+
+def _ae_match_index_whole(s):
+    return implies(_ae_ok(s), mk_bool(zi(mget(_ae_reply(s), "match_index")) >= zi(_ae_prev(s)) + z3.Length(_ae_E(s))))
+
+
+def _ae_commit(s):
+    m, old = _ae_req(s), s.old(s.self)
+    n = slen(log_entries(s.self))
+    lc = mget(m, "leader_commit")
+    target = ite(lc < n, lc, n)
+    return implies(_ae_ok(s), commit_of(s.self) == ite(target > commit_of(old), target, commit_of(old)))
+
+
+fn(RaftNode, "_handle_append_entries", args={"event": Ref(Event)}, uses=[SEND, UNIFORM, FIND_PEER, SM_APPLY, FUT_RESOLVE],
+   focus=node_focus,
+   requires=[("well-formed-request-with-contiguous-entries-after-prev", _ae_wellformed),
+             ("leader-agrees-with-my-committed-entries", _ae_no_conflict_with_committed)],
+   ensures=[
+    ("unknown-sender-ignored-else-one-reply-with-own-term-and-id", _ae_shape),
+    ("success-exactly-when-term-not-stale-and-prev-entry-matches", _ae_success_iff),
+    ("stale-leader-rejected-without-effect", _ae_stale_rejected),
+    ("current-leader-recognised-as-follower-of-its-term", _ae_leader_recognised),
+    ("rejection-leaves-log-and-apply-state-untouched", _ae_mismatch_keeps_log),
+    ("L5-covered-range-carries-the-leaders-terms", lambda s: implies(_ae_ok(s), ae_covered(
+        s.self, s.old(s.self), _ae_prev(s), _ae_E(s), mk_num(z3.Length(_ae_E(s)))))),
+    ("L5-entries-below-prev-untouched", lambda s: implies(_ae_ok(s), ae_prefix_kept(s.self, s.old(s.self), _ae_prev(s)))),
+    ("L5-nothing-beyond-a-conflict-is-kept", lambda s: implies(_ae_ok(s), ae_tail(
+        s.self, s.old(s.self), _ae_prev(s), mk_num(z3.Length(_ae_E(s)))))),
+    ("L5-match-index-not-above-the-verified-prefix", _ae_match_index_not_above),
+    ("L5-match-index-reports-the-whole-verified-prefix", _ae_match_index_whole),
+    ("commit-index-follows-leader-commit-clamped-to-own-log", _ae_commit)])
